@@ -260,7 +260,7 @@ class _Bounds:
                + (n + 2) * EPS * (nf * nl) ** 2             # accumulation of the weighted outer products
                + (1 + self.swc + EPS * self.w1 * (2 * n + 3)) * e_x * e_x   # common mean error (enters squared)
                + EPS * _n2(q))
-        return {"x": e_x, "p": u_p, "chi": chi, "d_chi": d_chi}
+        return {"x": e_x, "p": u_p, "chi": chi, "d_chi": d_chi, "chol": n * EPS * nf * nf * nl * nl}
 
     def update(self, pb, h, r, xp, pp, pcore, k, s, c, nu, ymag, redrawn):
         """pcore = covariance carried by the sigma points used for the measurement (pp if redrawn else F P F^T)."""
@@ -273,13 +273,16 @@ class _Bounds:
             e_x0 = d_sig                                    # centre residual is the rounding of a fresh sigma point
         else:
             sig, d_sig, e_x0 = pb["chi"] + 0.0, pb["d_chi"], pb["x"]
+        # backward error of the Cholesky factor that generated the sigma points (for the propagated set it is the factor of the
+        # *previous* posterior pushed through F, which can be much larger than |F P F^T| when F contracts)
+        chol = n * EPS * nl * nl if redrawn else pb["chol"]
         m = h.shape[0]
         d_y = nh * d_sig + (n + 1) * EPS * nh * sig         # rounding of H @ sigma (python dot per component)
         e_y = (2 * n + 3) * EPS * self.w1 * nh * sig + self.w1 * d_y   # weighted measurement mean
         hl = nh * nl
-        d_s = (n * EPS * hl * hl + (2 * n / g) * hl * d_y + (2 * n + 3) * EPS * hl * hl
+        d_s = (nh * nh * chol + (2 * n / g) * hl * d_y + (2 * n + 3) * EPS * hl * hl
                + (1 + self.swc + EPS * self.w1 * (2 * n + 3)) * e_y * e_y + EPS * _n2(r))
-        d_c = (n * EPS * nl * hl + (n / g) * (nl * d_y + hl * d_sig) + (2 * n + 3) * EPS * nl * hl
+        d_c = (nh * chol + (n / g) * (nl * d_y + hl * d_sig) + (2 * n + 3) * EPS * nl * hl
                + (1 + self.swc + EPS * self.w1 * (2 * n + 3)) * (e_x0 + d_sig) * e_y
                + (self.wc0 + self.w1) * (e_x0 + d_sig) * e_y * (0.0 if redrawn else 1.0) * EPS * (2 * n + 3))
         sinv = 1.0 / max(float(np.linalg.eigvalsh(kf.sym(s))[0]), 1e-300)
@@ -445,10 +448,14 @@ def run_sequence(ctx, spec, stats=None):
         ref = kf.kf_update(pred_x, ppf, h, r, y) if resample else kf.noredraw_update(pred_x, ppf, pbar, h, r, y)
         ub = bnd.update(pb, h, r, pred_x, pred_p, ppf if resample else pbar, ref["k"], ref["s"], ref["c"], ref["nu"], float(np.linalg.norm(y)), resample)
         asym_pp = _mx(pred_p - pred_p.T)
-        t_k = C_TOL * ub["k"] + asym_pp * _n2(h) / max(kf.min_eig_sym(ref["s"]), 1e-300)
-        t_s = C_TOL * ub["s"] + asym_pp * _n2(h) ** 2
-        t_x = C_TOL * ub["x"] + t_k * float(np.linalg.norm(ref["nu"]))
-        t_p = C_TOL * ub["p"] + asym_pp + 2 * t_k * _n2(ref["s"]) * _n2(ref["k"])
+        # the filter factorises the lower triangle of a (slightly) asymmetric covariance, the reference its symmetric part
+        a_core = n * asym_pp if resample else asym_prev
+        nh_, nk_, ns_ = _n2(h), _n2(ref["k"]), _n2(ref["s"])
+        x_k = (nh_ * a_core + nk_ * nh_ * nh_ * a_core) / max(kf.min_eig_sym(ref["s"]), 1e-300)
+        t_k = C_TOL * ub["k"] + x_k
+        t_s = C_TOL * ub["s"] + nh_ * nh_ * a_core
+        t_x = C_TOL * ub["x"] + x_k * float(np.linalg.norm(ref["nu"]))
+        t_p = C_TOL * ub["p"] + n * asym_pp + 2 * x_k * ns_ * nk_ + nk_ * nk_ * nh_ * nh_ * a_core
         tp_last = t_p
         upd_x = float(np.linalg.norm(ref["k"] @ ref["nu"]))
         upd_p = _n2(ref["k"] @ ref["s"] @ ref["k"].T)
